@@ -14,6 +14,7 @@ import (
 	"sync/atomic"
 	"time"
 
+	"github.com/ipld/go-storethehash/store"
 	mhprimary "github.com/ipld/go-storethehash/store/primary/multihash"
 	"github.com/ipld/go-storethehash/store/types"
 
@@ -76,7 +77,15 @@ func runCrashChild(args []string) error {
 	c := sc.Cfg
 	bits := c.Bits
 	mark(mf, "B -1")
-	st, err := openAt(*dir, r.primaryType(), c.Imm, bits, c.IL, c.PL)
+	var st *store.Store
+	_, pan0 := guarded(func() error {
+		st, err = openAt(*dir, r.primaryType(), c.Imm, bits, c.IL, c.PL)
+		return nil
+	})
+	if pan0 != "" {
+		mark(mf, "E -1 "+strconv.Quote("panic: "+pan0))
+		return nil
+	}
 	mark(mf, "E -1 "+strconv.Quote(errStr(err)))
 	if err != nil {
 		return nil
@@ -377,6 +386,13 @@ func crashOne(self, dir string, tr *core.Tracer, sc *crashScen, raw json.RawMess
 					}
 				}
 				ev["renamesBefore"], ev["renamesAfter"] = rb, ra
+				mk := 0
+				for j := 0; j < p.at && j < len(ops); j++ {
+					if ops[j].Kind == "create" && strings.HasSuffix(ops[j].Path, ".remapped") {
+						mk++
+					}
+				}
+				ev["remapMarkersBefore"] = mk
 				li := p.at - 1
 				if p.cut >= 0 {
 					li = p.at
